@@ -2,6 +2,7 @@ import GroupbyVerif.Lemmas.Reducers
 import GroupbyVerif.Lemmas.Dispatch
 import GroupbyVerif.Model.GenTable
 import GroupbyVerif.Bridge
+import GroupbyVerif.Generated.Constants
 
 /-!
 # C04 — Block-wise reduction equals single-pass reduction (kernel contract)
@@ -259,5 +260,14 @@ example : BlocksWF .f [[(0, .num 1), (-1, .num 9), (0, .nan)], [(1, .num 4), (0,
   constructor
   · intro b _ r _; trivial
   · exact Or.inl rfl
+
+/-- the accumulation loop of the current source has the shape the model `groupFold` stands for (facts extracted
+from the AST of `_group_by_reduce` on every run): the reducer reads and writes the row's own group slot
+(`target[key], count[key] = reduce_func(target[key], values[i], count[key])` with `key = group_key[i]`), rows
+are visited in array order or in the order of the indexer, negative keys are skipped, counts start at zero -/
+theorem source_loop_shape :
+    Generated.Constants.reduceUpdatesOwnSlot = true ∧ Generated.Constants.reduceKeyFromRow = true ∧
+    Generated.Constants.reduceRowsInOrder = true ∧ Generated.Constants.reduceCountStartsAtZero = true ∧
+    Generated.Constants.guardReduce = true := by decide
 
 end GV.C04
